@@ -187,6 +187,35 @@ fn one_voice(ctx: &mut Ctx, env: &Env, rng: &mut Rng, base: &Engine, rv: &RefVoi
             }
         }
     }
+    // every stream is generated with ITS OWN threshold and GV weight: distinct random values per
+    // stream, compared with the public building blocks run stream by stream
+    {
+        let mut e = base.clone();
+        for k in 0..nstreams {
+            e.condition.set_msd_threshold(k, if k == 1 { mid } else { rng.f64() });
+            e.condition.set_gv_weight(k, rng.uniform(0.2, 2.0));
+        }
+        if let Ok(run) = trajectories(&e, labels.clone()) {
+            let want = crate::synth::trajectories_from_public_api(&e, &labels, &run.durations);
+            let got = [&run.spectrum, &run.lf0, &run.lpf];
+            for k in 0..nstreams {
+                let dev = crate::synth::trajectory_deviation(got[k], &want[k]);
+                ctx.max("per_stream_settings_worst_deviation", if dev.is_finite() { dev } else { 1e300 });
+                if !(dev <= 1e-9) {
+                    ctx.violation(
+                        "stream-not-generated-with-its-own-threshold-and-gv-weight",
+                        d(J::obj()
+                            .set("stream", k)
+                            .set("thresholds", J::Arr((0..nstreams).map(|i| J::Num(e.condition.get_msd_threshold(i))).collect()))
+                            .set("gv_weights", J::Arr((0..nstreams).map(|i| J::Num(e.condition.get_gv_weight(i))).collect()))
+                            .set("deviation", dev)),
+                    );
+                    return;
+                }
+            }
+            ctx.count("per_stream_settings_checks", 1.0);
+        }
+    }
     if flips >= 1 {
         ctx.nontrivial(mix(&[hash_str(descr), hash_str(&to_strings(&labels).join("|")), flips as u64]));
     }
